@@ -661,6 +661,7 @@ type aclPred struct {
 type aclEntry struct {
 	allow bool
 	rule  *aclPred
+	form  int // which interface-less spelling to use when the rule has a single 0 interface
 }
 
 func (a aclEntry) word() string {
@@ -678,16 +679,36 @@ func (a aclEntry) word() string {
 	return s
 }
 
+// text is the entry in the textual form of policy files ("+ 1-ff00:0:110#1,0", "- 1", "+"); the
+// interface-less spellings are used for an all-zero single interface depending on form.
+func (a aclEntry) text() string {
+	s := "-"
+	if a.allow {
+		s = "+"
+	}
+	r := a.rule
+	if r == nil {
+		return s
+	}
+	switch {
+	case len(r.ifs) == 2:
+		return fmt.Sprintf("%s %d-%s#%d,%d", s, r.isd, addr.AS(r.as), r.ifs[0], r.ifs[1])
+	case r.ifs[0] == 0 && r.as == 0 && a.form == 2:
+		return fmt.Sprintf("%s %d", s, r.isd)
+	case r.ifs[0] == 0 && a.form >= 1:
+		return fmt.Sprintf("%s %d-%s", s, r.isd, addr.AS(r.as))
+	}
+	return fmt.Sprintf("%s %d-%s#%d", s, r.isd, addr.AS(r.as), r.ifs[0])
+}
+
+// mkACL builds the ACL the way policy files do: every entry through ACLEntry.LoadFromString
+// (HopPredicateFromString), so that the text form of hop predicates is part of the tie.
 func mkACL(es []aclEntry) *pathpol.ACL {
 	a := &pathpol.ACL{}
 	for _, x := range es {
-		ent := &pathpol.ACLEntry{Action: pathpol.ACLAction(x.allow)}
-		if x.rule != nil {
-			hp := &pathpol.HopPredicate{ISD: addr.ISD(x.rule.isd), AS: addr.AS(x.rule.as)}
-			for _, i := range x.rule.ifs {
-				hp.IfIDs = append(hp.IfIDs, iface.ID(i))
-			}
-			ent.Rule = hp
+		ent := &pathpol.ACLEntry{}
+		if err := ent.LoadFromString(x.text()); err != nil {
+			panic("ACLEntry.LoadFromString(" + x.text() + "): " + err.Error())
 		}
 		a.Entries = append(a.Entries, ent)
 	}
@@ -744,16 +765,57 @@ func (g *eng) randACL(valid bool) []aclEntry {
 				p.ifs[k] = 0
 			}
 		}
-		es = append(es, aclEntry{r.Bool(), p})
+		es = append(es, aclEntry{r.Bool(), p, r.Intn(3)})
 	}
 	if valid {
 		d := aclEntry{allow: r.Bool()}
 		if r.Bool() {
 			d.rule = &aclPred{ifs: []uint64{0}}
+			d.form = r.Intn(3)
 		}
 		es = append(es, d)
 	}
 	return es
+}
+
+// aclForms: every interface form of a hop predicate (none; #x; #x,y; #x,0; #0,y; #0,0) for every
+// AS of the alphabet, as a deny (allow) entry before the opposite default, against paths that
+// cross the AS with every (in,out) combination and start/end in it with every interface.
+func (g *eng) aclForms() {
+	iv := []uint64{1, 2, 11}
+	for _, a := range ases {
+		var paths []*vpath
+		for _, i := range iv {
+			for _, o := range iv {
+				paths = append(paths, mkPath([]pif{{1, 5, 1}, {1, a, i}, {1, a, o}, {11, 65551, 2}}))
+			}
+			paths = append(paths, mkPath([]pif{{1, a, i}, {11, 65551, 2}}), mkPath([]pif{{11, 65551, 2}, {1, a, i}}),
+				mkPath([]pif{{11, a, i}, {1, a, i}, {1, a, 11}, {11, a, i}}))
+		}
+		paths = append(paths, mkPath(nil))
+		var forms [][]uint64
+		forms = append(forms, []uint64{0}, []uint64{0, 0})
+		for _, x := range []uint64{1, 2} {
+			forms = append(forms, []uint64{x}, []uint64{x, 0}, []uint64{0, x}, []uint64{x, x}, []uint64{x, 3 - x}, []uint64{x, 11})
+		}
+		for _, isd := range []uint64{0, 1} {
+			for _, f := range forms {
+				for _, allow := range []bool{false, true} {
+					for form := 0; form < 2; form++ {
+						if form == 1 && !(len(f) == 1 && f[0] == 0) {
+							continue
+						}
+						es := []aclEntry{{allow, &aclPred{isd: isd, as: a, ifs: f}, form}, {allow: !allow}}
+						g.aclCase(es, true, paths)
+						// a second rule on the same AS behind the first: first match must win
+						es2 := []aclEntry{{allow, &aclPred{isd: isd, as: a, ifs: f}, form},
+							{!allow, &aclPred{isd: 1, as: a, ifs: []uint64{0}}, 1}, {allow: allow, rule: &aclPred{ifs: []uint64{0}}, form: 2}}
+						g.aclCase(es2, true, paths)
+					}
+				}
+			}
+		}
+	}
 }
 
 func (g *eng) aclCase(es []aclEntry, valid bool, paths []*vpath) {
@@ -1003,6 +1065,7 @@ func main() {
 		}
 	}
 	// (d) ACL and policy
+	g.aclForms()
 	k := e.N(1500, 30000)
 	for i := 0; i < k; i++ {
 		var paths []*vpath
